@@ -83,6 +83,12 @@ def GParam.name : GParam → String
   | .lt _ n _ _ => n
   | .const_ _ n _ _ => n
 
+/-- the parameter without its default (`T = u8` → `T`): defaults are not allowed in impl generics -/
+def GParam.stripDefault : GParam → GParam
+  | .ty a n bs bt _ => .ty a n bs bt none
+  | .const_ a n t _ => .const_ a n t none
+  | q => q
+
 def GParam.print : GParam → Toks
   | .ty attrs name bounds btrail dflt =>
       printAttrs attrs ++ [i name] ++
